@@ -84,6 +84,13 @@ def _obligation(job):
             checks.append(("every pre-state has an outcome", z3.Not(total)))
             old_ids = [tuple(_item_fields(("agg", (StrTok(e["route"]), e["host"], e["mime"], e["time"], VecU8(e["len"], e["tag"]))))) for e in ents]
             for pi, (c, v, locs, heap) in enumerate(out.rets):
+                # summaries are explored under local conditions only: drop return cases that are infeasible from this pre-state
+                sf = z3.Solver()
+                sf.add(*assum)
+                sf.add(*clock.constraints)
+                sf.add(z3bool(c))
+                if sf.check() == z3.unsat:
+                    continue
                 post = heap[HEAPF][0]
                 limit2, tl2, size2, dq2 = post[1]
                 items2 = dq2.items
